@@ -524,14 +524,6 @@ structure SOut where
   unit    : Option QUnit := none
 deriving DecidableEq, Repr
 
-/-- The transport of the compiler pool.  `pickle`: the worker works on a copy,
-    the server keeps what it had when the call raises.  `reuse`
-    (`REUSE_LAST_STATE_MARKER`): the worker mutates its `LAST_STATE` in place,
-    and the next call that carries the marker sees those writes. -/
-inductive Transport where
-  | pickle | reuse
-deriving DecidableEq, Repr
-
 /-- `dbview.start(unit)`; `_apply_in_tx` only records schema pickles that are not
     used for compilation and is omitted. -/
 def Server.start (s : Server) (u : QUnit) : Server :=
@@ -588,58 +580,132 @@ def Server.run (s : Server) (u : QUnit) (bf : Bool) : Server × Outcome :=
 def Server.relabel (s : Server) (e : Err) : Err :=
   if s.inTx && s.txErr && e != .syncFail && e != .noSpId && e != .dangling then .inTxError else e
 
-/-- A compile call raised: the message loop calls `dbview.tx_error()`.  With the pickle
-    transport `_last_comp_state` is what it was; with `reuse` the worker's `LAST_STATE`
-    object (which the next marker call will use) has been written to. -/
-def Server.compileFailed (s : Server) (tr : Transport) (st : ConState) : Server :=
-  let s1 := if s.inTx then { s with txErr := true } else s
-  match tr with
-  | .pickle => s1
-  | .reuse => if s.inTx then { s1 with last := some st } else s1
+/-- A compile call raised: the message loop calls `dbview.tx_error()`; `_last_comp_state` is
+    only ever assigned from the result of a call that returned. -/
+def Server.compileFailed (s : Server) : Server :=
+  if s.inTx then { s with txErr := true } else s
 
-/-- A script (≥ 2 statements) sent inside a transaction.  Only the case that the compiler
-    rejects it is modelled (`none` otherwise: accepted scripts run through `execute_script`,
-    which is outside this model). -/
-def Server.stepScript (tr : Transport) (s : Server) (ss : List Stmt) : Option (Server × SOut) :=
+/-- `dbview._compile`, with the compiler state object the worker works on made explicit
+    (`cin`): `compile_in_tx` on it inside a transaction, `compile` on a fresh state built from
+    the server's view otherwise. -/
+def Server.compileOn (s : Server) (cin : Option ConState) (e : SEv) : CompRes QUnit :=
+  if s.inTx then
+    match cin with
+    | some c => compileInTx c s.txid s.txAliases s.txConfig s.txErr e.cf e.stmt
+    | none => { st := ConState.init e.t0 default, against := none, res := .error .dangling }
+  else compileFresh e.t0 ⟨s.uschema, s.gschema, s.aliases, s.config⟩ e.cf e.stmt
+
+/-- What one client statement leaves behind: the server, what is observable of the statement,
+    the compiler state *object* after the call (also when the call raised), and whether the
+    compile call returned. -/
+structure StepRes where
+  srv      : Server
+  out      : SOut
+  st       : ConState
+  compiled : Bool
+deriving Repr
+
+/-- One client statement through `parse` (compile, on the state object `cin`) and `execute`. -/
+def Server.stepOn (s : Server) (cin : Option ConState) (e : SEv) : StepRes :=
+  let r := s.compileOn cin e
+  match r.res with
+  | .error err =>
+    { srv := s.compileFailed, out := { outcome := .rejected (s.relabel err), against := r.against },
+      st := r.st, compiled := false }
+  | .ok u =>
+    let keep : Option ConState :=
+      if s.inTx then some r.st else if u.txId.isSome then some r.st else none
+    let (s', o) := ({ s with last := keep } : Server).run u e.bf
+    { srv := s', out := { outcome := o, against := r.against, unit := some u }, st := r.st, compiled := true }
+
+/-- Pickle transport: every call works on a private unpickled copy of the bytes the server
+    holds in `_last_comp_state`. -/
+def Server.step (s : Server) (e : SEv) : Server × SOut :=
+  let r := s.stepOn s.last e
+  (r.srv, r.out)
+
+def Server.runAll (s : Server) : List SEv → Server × List SOut
+  | [] => (s, [])
+  | e :: es =>
+    let (s', o) := s.step e
+    let (s'', os) := Server.runAll s' es
+    (s'', o :: os)
+
+def Server.init (p : Payload) : Server :=
+  { uschema := p.uschema, gschema := p.gschema, aliases := p.aliases, config := p.config }
+
+/-- A script (≥ 2 statements) sent inside a transaction, compiled on the state object `c`.
+    Only the case that the compiler rejects it is modelled (`none` otherwise: accepted scripts
+    run through `execute_script`, which is outside this model).  Second component: the state
+    object after the call. -/
+def Server.stepScriptOn (s : Server) (cin : Option ConState) (ss : List Stmt) :
+    Option (Server × SOut × ConState) :=
   if !s.inTx then none else
-  match s.last with
+  match cin with
   | none => none
   | some c =>
     let r := compileScriptInTx c s.txid s.txAliases s.txConfig s.txErr ss
     match r.res with
     | .ok _ => none
-    | .error err => some (s.compileFailed tr r.st, { outcome := .rejected (s.relabel err), against := r.against })
+    | .error err =>
+      some (s.compileFailed, { outcome := .rejected (s.relabel err), against := r.against }, r.st)
 
-/-- `dbview._compile`: `compile_in_tx` on `_last_comp_state` inside a transaction, `compile` on a
-    fresh state built from the server's view otherwise. -/
-def Server.compileFor (s : Server) (e : SEv) : CompRes QUnit :=
-  if s.inTx then
-    match s.last with
-    | some c => compileInTx c s.txid s.txAliases s.txConfig s.txErr e.cf e.stmt
-    | none => { st := ConState.init e.t0 default, against := none, res := .error .dangling }
-  else compileFresh e.t0 ⟨s.uschema, s.gschema, s.aliases, s.config⟩ e.cf e.stmt
+/-! ### the compiler pool: one worker and `REUSE_LAST_STATE_MARKER`
 
-/-- One client statement through `parse` (compile) and `execute`.
-    With `Transport.pickle` a failed compile leaves `_last_comp_state`; with
-    `Transport.reuse` the worker's object has been written to. -/
-def Server.step (tr : Transport) (s : Server) (e : SEv) : Server × SOut :=
-  let r := s.compileFor e
-  match r.res with
-  | .error err => (s.compileFailed tr r.st, { outcome := .rejected (s.relabel err), against := r.against })
-  | .ok u =>
-    let keep : Option ConState :=
-      if s.inTx then some r.st else if u.txId.isSome then some r.st else none
-    let (s', o) := ({ s with last := keep } : Server).run u e.bf
-    (s', { outcome := o, against := r.against, unit := some u })
+`pool.compile_in_tx` sends the marker instead of the pickled state when the chosen worker's
+`_last_pickled_state` *is* (object identity) the bytes object the caller holds; the worker then
+compiles on its `LAST_STATE` object in place.  Identity of bytes objects is modelled by
+tokens: every successful call returns a fresh one. -/
 
-def Server.runAll (tr : Transport) (s : Server) : List SEv → Server × List SOut
-  | [] => (s, [])
+/-- `fixed`: the pool forgets `worker._last_pickled_state` when a call raises (and the worker
+    assigns `LAST_STATE` only after pickling succeeded) — the code as it is now.
+    `buggy`: the pool before that change. -/
+inductive PoolVer where
+  | fixed | buggy
+deriving DecidableEq, Repr
+
+structure Sys where
+  srv   : Server
+  stok  : Nat := 0                    -- identity of the bytes in `_last_comp_state`
+  wobj  : Option ConState := none     -- the worker's `LAST_STATE`
+  wtok  : Option Nat := none          -- the pool's `worker._last_pickled_state` (`none` = `None`)
+  fresh : Nat := 1
+deriving Repr
+
+def Sys.init (p : Payload) : Sys := { srv := Server.init p }
+
+/-- does the pool send the marker? -/
+def Sys.reuse (y : Sys) : Bool := y.srv.inTx && y.srv.last.isSome && y.wtok == some y.stok
+
+/-- the state object the next `compile_in_tx` works on -/
+def Sys.cin (y : Sys) : Option ConState := if y.reuse then y.wobj else y.srv.last
+
+/-- what the pool and the worker remember after a call -/
+def Sys.after (v : PoolVer) (y : Sys) (srv' : Server) (st : ConState) (compiled : Bool) : Sys :=
+  if compiled then
+    -- `LAST_STATE = cstate`; `_last_pickled_state` = the new bytes object (`None` if no state)
+    { srv := srv', stok := y.fresh, wobj := srv'.last,
+      wtok := if srv'.last.isSome then some y.fresh else none, fresh := y.fresh + 1 }
+  else
+    let wobj' := if y.reuse then some st else y.wobj     -- written to in place under the marker
+    match v with
+    | .fixed => { y with srv := srv', wobj := wobj', wtok := none }
+    | .buggy => { y with srv := srv', wobj := wobj' }
+
+def Sys.step (v : PoolVer) (y : Sys) (e : SEv) : Sys × SOut :=
+  let r := y.srv.stepOn y.cin e
+  (y.after v r.srv r.st r.compiled, r.out)
+
+def Sys.stepScript (v : PoolVer) (y : Sys) (ss : List Stmt) : Option (Sys × SOut) :=
+  match y.srv.stepScriptOn y.cin ss with
+  | none => none
+  | some (srv', o, st) => some (y.after v srv' st false, o)
+
+def Sys.runAll (v : PoolVer) (y : Sys) : List SEv → Sys × List SOut
+  | [] => (y, [])
   | e :: es =>
-    let (s', o) := s.step tr e
-    let (s'', os) := Server.runAll tr s' es
-    (s'', o :: os)
-
-def Server.init (p : Payload) : Server :=
-  { uschema := p.uschema, gschema := p.gschema, aliases := p.aliases, config := p.config }
+    let (y', o) := y.step v e
+    let (y'', os) := Sys.runAll v y' es
+    (y'', o :: os)
 
 end EdbVerif.Tx
